@@ -52,6 +52,7 @@ def StrU : U → Bool
   | _ => false
 /-- boolean API-call trees: comparisons and IS / IS NOT of numeric or string-valued trees,
     `== NULL`-style tests, `like` / `not_like` / `ilike` / `not_ilike` (with or without `escape=`) of string-valued trees,
+    `x.in_([v₁, …])` / `x.not_in([…])` with a non-empty list of literals,
     `and_` / `or_` of one or more boolean trees, `~` -/
 def BoolU : U → Bool
   | .bin k a b =>
@@ -59,6 +60,7 @@ def BoolU : U → Bool
       ((NumU b || StrU b) ||
         (match b with | .null => k = .eq || k = .ne || k = .is_ || k = .isnot | _ => false))
   | .like _ _ a b => StrU a && StrU b
+  | .inOp _ vals x => !vals.isEmpty && (NumU x || StrU x)
   | .not_ a => BoolU a
   | .and_ cs => !cs.isEmpty && BoolUList cs
   | .or_ cs => !cs.isEmpty && BoolUList cs
@@ -98,7 +100,8 @@ theorem NumE.opnd {e : SaExpr} (h : NumE e) : OpndE e := ⟨h.core, h.wg, h.shap
 
 /-- shapes `build` produces for boolean trees, with what `negate` needs to know -/
 def boolShape : SaExpr → Bool
-  | .binary op _ _ (some n) esc _ => (coreBin op && coreBin n && esc.isNone) || likePair op n
+  | .binary op _ _ (some n) esc _ =>
+    (coreBin op && coreBin n && esc.isNone) || likePair op n || (inPair op n && esc.isNone)
   | .clist op _ _ true _ => op = .and_ || op = .or_
   | .unary op _ _ => op = .inv
   | _ => false
@@ -178,43 +181,53 @@ theorem coreList_of_forall : ∀ (cs : List SaExpr), (∀ c ∈ cs, Core c = tru
     simp only [CoreList, Bool.and_eq_true]
     exact ⟨h x (by simp), coreList_of_forall xs (fun c hc => h c (by simp [hc]))⟩
 
-/-- the operands a flattened chain takes over from a child are core and well grouped -/
-theorem flattened_core : ∀ l : SaExpr, Core l = true → WG l = true →
-    (∀ c ∈ flattened l, Core c = true ∧ WG c = true) ∧ flattened l ≠ []
-  | .binary op a b n esc ty, hc, hw => by
-    simp only [Core, Bool.and_eq_true] at hc
+theorem coreList_not_in {op : Op} (h : coreList op = true) : inOp op = false := by
+  cases op <;> simp [coreList] at h <;> rfl
+
+/-- the operands a flattened chain takes over from a child (a chain of the same list operator)
+    are core and well grouped -/
+theorem flattened_core (op : Op) (hop : coreList op = true) : ∀ l : SaExpr, Core l = true → WG l = true →
+    (operatorOf l = some op → ∀ c ∈ flattened l, Core c = true ∧ WG c = true) ∧ flattened l ≠ []
+  | .binary op' a b n esc ty, hc, hw => by
     simp only [WG, Bool.and_eq_true] at hw
     refine ⟨?_, by simp [flattened]⟩
-    intro c hcm
+    intro ho c hcm
+    simp only [operatorOf, Option.some.injEq] at ho; subst ho
+    obtain ⟨hca, hk⟩ := core_binary hc
+    have hcb : Core b = true := by
+      rcases hk with ⟨_, _, h⟩ | ⟨hl, _, _, _⟩ | ⟨hi, _, _⟩
+      · exact h
+      · rw [coreList_not_like hop] at hl; cases hl
+      · rw [coreList_not_in hop] at hi; cases hi
     simp only [flattened, List.mem_cons, List.mem_nil_iff, or_false] at hcm
     rcases hcm with h | h
-    · subst h; exact ⟨hc.1.2, hw.1.2⟩
-    · subst h; exact ⟨hc.2, hw.2⟩
-  | .clist op cs gr bl ty, hc, hw => by
+    · subst h; exact ⟨hca, hw.1.2⟩
+    · subst h; exact ⟨hcb, hw.2⟩
+  | .clist op' cs gr bl ty, hc, hw => by
     simp only [Core, Bool.and_eq_true, decide_eq_true_eq] at hc
     simp only [WG] at hw
     refine ⟨?_, ?_⟩
-    · intro c hcm
+    · intro _ c hcm
       simp only [flattened] at hcm
-      exact ⟨coreList_mem' cs hc.2 c hcm, (wgList_mem op cs hw c hcm).1⟩
+      exact ⟨coreList_mem' cs hc.2 c hcm, (wgList_mem op' cs hw c hcm).1⟩
     · simp only [flattened]
       intro h
       rw [h] at hc
       simp at hc
   | .grouping e, hc, hw => by
-    simp only [flattened]
-    exact flattened_core e (by simpa [Core] using hc) (by simpa [WG] using hw)
-  | .col _ _, hc, hw => ⟨by intro c h; simp [flattened] at h; subst h; exact ⟨hc, hw⟩, by simp [flattened]⟩
-  | .bind _ _, hc, hw => ⟨by intro c h; simp [flattened] at h; subst h; exact ⟨hc, hw⟩, by simp [flattened]⟩
-  | .null, hc, hw => ⟨by intro c h; simp [flattened] at h; subst h; exact ⟨hc, hw⟩, by simp [flattened]⟩
-  | .true_, hc, hw => ⟨by intro c h; simp [flattened] at h; subst h; exact ⟨hc, hw⟩, by simp [flattened]⟩
-  | .false_, hc, hw => ⟨by intro c h; simp [flattened] at h; subst h; exact ⟨hc, hw⟩, by simp [flattened]⟩
-  | .unary _ _ _, hc, hw => ⟨by intro c h; simp [flattened] at h; subst h; exact ⟨hc, hw⟩, by simp [flattened]⟩
+    simp only [flattened, operatorOf]
+    exact flattened_core op hop e (by simpa [Core] using hc) (by simpa [WG] using hw)
+  | .col _ _, hc, hw => ⟨by intro _ c h; simp [flattened] at h; subst h; exact ⟨hc, hw⟩, by simp [flattened]⟩
+  | .bind _ _, hc, hw => ⟨by intro _ c h; simp [flattened] at h; subst h; exact ⟨hc, hw⟩, by simp [flattened]⟩
+  | .null, hc, hw => ⟨by intro _ c h; simp [flattened] at h; subst h; exact ⟨hc, hw⟩, by simp [flattened]⟩
+  | .true_, hc, hw => ⟨by intro _ c h; simp [flattened] at h; subst h; exact ⟨hc, hw⟩, by simp [flattened]⟩
+  | .false_, hc, hw => ⟨by intro _ c h; simp [flattened] at h; subst h; exact ⟨hc, hw⟩, by simp [flattened]⟩
+  | .unary _ _ _, hc, hw => ⟨by intro _ c h; simp [flattened] at h; subst h; exact ⟨hc, hw⟩, by simp [flattened]⟩
   | .asbool _ _ _, hc, _ => by simp [Core] at hc
-  | .case_ _ _ _ _, hc, hw => ⟨by intro c h; simp [flattened] at h; subst h; exact ⟨hc, hw⟩, by simp [flattened]⟩
-  | .cast _ _, hc, hw => ⟨by intro c h; simp [flattened] at h; subst h; exact ⟨hc, hw⟩, by simp [flattened]⟩
-  | .func _ _ _, hc, hw => ⟨by intro c h; simp [flattened] at h; subst h; exact ⟨hc, hw⟩, by simp [flattened]⟩
-  | .subq _ _, hc, hw => ⟨by intro c h; simp [flattened] at h; subst h; exact ⟨hc, hw⟩, by simp [flattened]⟩
+  | .case_ _ _ _ _, hc, hw => ⟨by intro _ c h; simp [flattened] at h; subst h; exact ⟨hc, hw⟩, by simp [flattened]⟩
+  | .cast _ _, hc, hw => ⟨by intro _ c h; simp [flattened] at h; subst h; exact ⟨hc, hw⟩, by simp [flattened]⟩
+  | .func _ _ _, hc, hw => ⟨by intro _ c h; simp [flattened] at h; subst h; exact ⟨hc, hw⟩, by simp [flattened]⟩
+  | .subq _ _, hc, hw => ⟨by intro _ c h; simp [flattened] at h; subst h; exact ⟨hc, hw⟩, by simp [flattened]⟩
   | .inlist _ _ _, hc, _ => by simp [Core] at hc
   | .inrows _ _ _, hc, _ => by simp [Core] at hc
   | .tuple_ _, hc, _ => by simp [Core] at hc
@@ -241,8 +254,8 @@ theorem constructForOp_core (l r : SaExpr) (op : Op) (ty : Ty) (n : Option Op)
     by_cases hf : (operatorOf l = some op ∧ ty = tyOf l) ∨ (operatorOf r = some op ∧ ty = tyOf r)
     · simp only [hf, if_true]
       obtain ⟨hcL, hb⟩ := assoc_coreBin_coreList hop ha
-      obtain ⟨fl, fln⟩ := flattened_core l hcl hwl
-      obtain ⟨fr, frn⟩ := flattened_core r hcr hwr
+      obtain ⟨fl, fln⟩ := flattened_core op hcL l hcl hwl
+      obtain ⟨fr, frn⟩ := flattened_core op hcL r hcr hwr
       have hall : ∀ c ∈ (if operatorOf l = some op ∧ ty = tyOf l then flattened l else [l]) ++
           (if operatorOf r = some op ∧ ty = tyOf r then flattened r else [r]),
           Core c = true ∧ WG c = true := by
@@ -250,10 +263,10 @@ theorem constructForOp_core (l r : SaExpr) (op : Op) (ty : Ty) (n : Option Op)
         simp only [List.mem_append] at hc
         rcases hc with hc | hc
         · split at hc
-          · exact fl c hc
+          · rename_i h1; exact fl h1.1 c hc
           · simp at hc; subst hc; exact ⟨hcl, hwl⟩
         · split at hc
-          · exact fr c hc
+          · rename_i h1; exact fr h1.1 c hc
           · simp at hc; subst hc; exact ⟨hcr, hwr⟩
       have hlen : 2 ≤ ((if operatorOf l = some op ∧ ty = tyOf l then flattened l else [l]) ++
           (if operatorOf r = some op ∧ ty = tyOf r then flattened r else [r])).length := by
@@ -413,6 +426,25 @@ theorem selfGroup_closed (a : Op) (c : SaExpr) (h : closedE c = true) (hb : bool
   simp only [Bool.false_eq_true, if_false]
   cases c <;> first | rfl | exact hcol | (simp [closedE, rootOp] at h)
 
+theorem likePair_ops {op n : Op} (h : likePair op n = true) :
+    likeOp op = true ∧ likeOp n = true ∧ likePair n op = true := by
+  simp only [likePair, Bool.or_eq_true, Bool.and_eq_true, decide_eq_true_eq] at h
+  rcases h with ((⟨h1, h2⟩ | ⟨h1, h2⟩) | ⟨h1, h2⟩) | ⟨h1, h2⟩ <;> subst h1 <;> subst h2 <;>
+    exact ⟨rfl, rfl, rfl⟩
+
+theorem inPair_ops {op n : Op} (h : inPair op n = true) :
+    inOp op = true ∧ inOp n = true ∧ inPair n op = true := by
+  simp only [inPair, Bool.or_eq_true, Bool.and_eq_true, decide_eq_true_eq] at h
+  rcases h with ⟨h1, h2⟩ | ⟨h1, h2⟩ <;> subst h1 <;> subst h2 <;> exact ⟨rfl, rfl, rfl⟩
+
+theorem coreBinD_not_in {op : Op} (h : coreBinD op = true) : inOp op = false := by
+  rcases coreBinD_cases h with h | h
+  · cases op <;> simp [coreBin] at h <;> rfl
+  · cases op <;> simp [coreDiv] at h <;> rfl
+
+theorem coreBin_not_in {op : Op} (h : coreBin op = true) : inOp op = false :=
+  coreBinD_not_in (coreBinD_of_bin h)
+
 theorem negateInBinary_core (r : SaExpr) (n op : Op) (h : Core r = true) : negateInBinary r n op = r := by
   cases r <;> first | rfl | (simp [Core] at h)
 
@@ -431,23 +463,27 @@ theorem negate_bool (e : SaExpr) (h : BoolE e) : BoolE (negate e) := by
     cases n with
     | none => simp [boolShape] at hs
     | some n =>
-      obtain ⟨hcl, hcr, hk⟩ := core_binary hc
+      obtain ⟨hcl, hk⟩ := core_binary hc
       simp only [WG, Bool.and_eq_true] at hw
-      simp only [negate, negateInBinary_core r n op hcr]
       simp only [boolShape, Bool.or_eq_true, Bool.and_eq_true] at hs
-      rcases hs with hs | hs
-      · obtain ⟨c, w⟩ := mkBinary_WG l r n ty (some op) hs.1.2 hcl hw.1.2 hcr hw.2
+      rcases hs with (hs | hs) | hs
+      · have hcr : Core r = true := by
+          rcases hk with ⟨_, _, h⟩ | ⟨hl, _, _, _⟩ | ⟨hi, _, _⟩
+          · exact h
+          · rw [coreBinD_not_like (coreBinD_of_bin hs.1.1)] at hl; cases hl
+          · rw [coreBin_not_in hs.1.1] at hi; cases hi
+        simp only [negate, negateInBinary_core r n op hcr]
+        obtain ⟨c, w⟩ := mkBinary_WG l r n ty (some op) hs.1.2 hcl hw.1.2 hcr hw.2
         have he : esc = none := by cases esc <;> simp at hs ⊢
         subst he
         exact ⟨c, w, by simp [mkBinary, boolShape, hs.1.1, hs.1.2]⟩
       · -- the LIKE family: operands are closed, `self_group` leaves them alone
-        have hlo : likeOp op = true := by
-          cases op <;> cases n <;> simp [likePair] at hs <;> rfl
-        have hln : likeOp n = true ∧ likePair n op = true := by
-          cases op <;> cases n <;> simp [likePair] at hs <;> exact ⟨rfl, rfl⟩
-        rcases hk with ⟨hbd, _⟩ | ⟨_, cl, cr⟩
+        have hlo : likeOp op = true := (likePair_ops hs).1
+        have hln : likeOp n = true ∧ likePair n op = true := (likePair_ops hs).2
+        rcases hk with ⟨hbd, _, _⟩ | ⟨_, cl, cr, hcr⟩ | ⟨hi, _, _⟩
         · rw [coreBinD_not_like hbd] at hlo; cases hlo
-        · have hbn : boolCtx n = false := by
+        · simp only [negate, negateInBinary_core r n op hcr]
+          have hbn : boolCtx n = false := by
             cases n <;> simp [likeOp] at hln <;> rfl
           rw [show mkBinary l r n ty (some op) esc = .binary n l r (some op) esc ty from by
             simp only [mkBinary, selfGroup_closed n l cl hbn, selfGroup_closed n r cr hbn]]
@@ -457,6 +493,29 @@ theorem negate_bool (e : SaExpr) (h : BoolE e) : BoolE (negate e) := by
             have hwr : wouldGroup (some n) r = false := wouldGroup_closed _ r cr
             simp [WG, hwl, hwr, hw.1.2, hw.2]
           · simp [boolShape, hln.2]
+        · rw [inOp_not_like hi] at hlo; cases hlo
+      · -- IN / NOT IN: the expanding parameter switches to the negated operator
+        have hio : inOp op = true := (inPair_ops hs.1).1
+        have hin : inOp n = true ∧ inPair n op = true := (inPair_ops hs.1).2
+        have he : esc = none := by cases esc <;> simp at hs ⊢
+        subst he
+        rcases hk with ⟨hbd, _, _⟩ | ⟨hl, _, _, _⟩ | ⟨_, _, hir⟩
+        · rw [coreBinD_not_in hbd] at hio; cases hio
+        · rw [inOp_not_like hio] at hl; cases hl
+        · obtain ⟨vs, lty, hr, hne⟩ := inRight_cases hir
+          subst hr
+          have hbn : boolCtx n = false := by
+            cases n <;> simp [inOp] at hin <;> rfl
+          obtain ⟨c1, w1, g1⟩ := selfGroup_core n l hcl hw.1.2 (Or.inl hbn)
+          have hve : vs.isEmpty = false := by cases vs <;> simp at hne ⊢
+          have hsg : selfGroup (some n) (SaExpr.inlist vs lty n) = .inlist vs lty n := by
+            simp [selfGroup, wouldGroup]
+          simp only [negate, negateInBinary, if_true, mkBinary, hsg]
+          refine ⟨?_, ?_, ?_⟩
+          · simp [Core, c1, hin.1, inRight, hve]
+          · have g2 : wouldGroup (some n) (SaExpr.inlist vs lty n) = false := rfl
+            simp [WG, w1, g1, g2]
+          · simp [boolShape, hin.2]
   | clist op cs gr bl ty => exact unary_inv_boolE _ _ hc hw
   | unary op x ty =>
     simp only [negate]
@@ -537,6 +596,10 @@ theorem precOf_like_gt_asbool : ∀ op, likeOp op = true → isPrecedent op (som
   intro op h
   cases op <;> simp [likeOp] at h <;> decide
 
+theorem precOf_in_gt_asbool : ∀ op, inOp op = true → isPrecedent op (some .asbool_) = false := by
+  intro op h
+  cases op <;> simp [inOp] at h <;> decide
+
 theorem selfGroup_asbool_boolE (c : SaExpr) (h : BoolE c) : selfGroup (some .asbool_) c = c := by
   obtain ⟨hc, _, hs⟩ := h
   cases c with
@@ -546,9 +609,10 @@ theorem selfGroup_asbool_boolE (c : SaExpr) (h : BoolE c) : selfGroup (some .asb
       | none => simp [boolShape] at hs
       | some n =>
         simp only [boolShape, Bool.or_eq_true, Bool.and_eq_true] at hs
-        rcases hs with hs | hs
+        rcases hs with (hs | hs) | hs
         · exact precOf_core_gt_asbool op (Or.inl hs.1.1)
-        · exact precOf_like_gt_asbool op (by cases op <;> cases n <;> simp [likePair] at hs <;> rfl)
+        · exact precOf_like_gt_asbool op (likePair_ops hs).1
+        · exact precOf_in_gt_asbool op (inPair_ops hs.1).1
     simp [selfGroup, wouldGroup, this]
   | clist op cs gr bl ty =>
     simp only [Core, Bool.and_eq_true] at hc
@@ -660,8 +724,8 @@ theorem boolConstruct_bool (operator : Op) (hop : operator = .and_ ∨ operator 
         obtain ⟨cy, wy, gy⟩ := selfGroup_core operator x bx.core bx.wg (Or.inr hna)
         split at hc
         · rename_i ho
-          obtain ⟨fc, _⟩ := flattened_core _ cy wy
-          exact ⟨(fc c hc).1, (fc c hc).2, flattened_not_grouped operator hcl _ cy wy ho c hc⟩
+          obtain ⟨fc, _⟩ := flattened_core operator hcl _ cy wy
+          exact ⟨(fc ho c hc).1, (fc ho c hc).2, flattened_not_grouped operator hcl _ cy wy ho c hc⟩
         · simp only [List.mem_singleton] at hc
           subst hc
           exact ⟨cy, wy, gy⟩
@@ -684,7 +748,7 @@ theorem boolConstruct_bool (operator : Op) (hop : operator = .and_ ∨ operator 
             cases x <;> simp [boolShape] at hs <;> rfl
           obtain ⟨cy, wy, _⟩ := selfGroup_core operator x bx.core bx.wg (Or.inr hna)
           split
-          · obtain ⟨_, fn⟩ := flattened_core _ cy wy
+          · obtain ⟨_, fn⟩ := flattened_core operator hcl _ cy wy
             cases hh : flattened (selfGroup (some operator) x) with
             | nil => exact absurd hh fn
             | cons a as => simp
@@ -752,6 +816,29 @@ theorem mkBinary_like (x y : SaExpr) (op n : Op) (esc : Option String) (hl : lik
   · simp [mkBinary, Core, hl, k1, k2, c1, c2]
   · simp [mkBinary, WG, w1, w2, g1, g2]
   · simp [mkBinary, boolShape, hp]
+
+/-! ### IN / NOT IN -/
+
+theorem in_facts (negated : Bool) :
+    let op := if negated then Op.not_in_op else Op.in_op
+    inOp op = true ∧ associative op = false ∧ ∃ n, negateOp op = some n ∧ inPair op n = true := by
+  cases negated <;> exact ⟨rfl, by decide, _, rfl, rfl⟩
+
+/-- `x.in_([v₁, …])` / `x.not_in([…])` over a value operand and a non-empty list -/
+theorem mkBinary_in (x : SaExpr) (op n : Op) (vs : List Lit) (lty : Ty) (hin : inOp op = true)
+    (hp : inPair op n = true) (hx : OpndE x) (hne : vs ≠ []) :
+    BoolE (mkBinary x (.inlist vs lty op) op .bool (some n) none) := by
+  have hbn : boolCtx op = false := by cases op <;> simp [inOp] at hin <;> rfl
+  obtain ⟨c1, w1, g1⟩ := selfGroup_core op x hx.core hx.wg (Or.inl hbn)
+  have hve : vs.isEmpty = false := by cases vs <;> simp at hne ⊢
+  have hsg : selfGroup (some op) (SaExpr.inlist vs lty op) = .inlist vs lty op := by
+    simp [selfGroup, wouldGroup]
+  have g2 : wouldGroup (some op) (SaExpr.inlist vs lty op) = false := rfl
+  simp only [mkBinary, hsg]
+  refine ⟨?_, ?_, ?_⟩
+  · simp [Core, c1, hin, inRight, hve]
+  · simp [WG, w1, g1, g2]
+  · simp [boolShape, hp]
 
 /-! ### `build` over the API-call fragment -/
 
@@ -1280,7 +1367,30 @@ theorem build_bool : ∀ (u : U) (e : SaExpr), BoolU u = true → build u = some
   | .cast _ _, _, hu, _ => by simp [BoolU] at hu
   | .coalesce _, _, hu, _ => by simp [BoolU] at hu
   | .subq _ _, _, hu, _ => by simp [BoolU] at hu
-  | .inOp _ _ _, _, hu, _ => by simp [BoolU] at hu
+  | .inOp negated vals x, e, hu, hb => by
+    simp only [BoolU, Bool.and_eq_true, Bool.or_eq_true, Bool.not_eq_true'] at hu
+    simp only [build] at hb
+    cases hx : build x with
+    | none => simp [hx] at hb
+    | some x' =>
+      simp only [hx] at hb
+      have nx : OpndE x' := by
+        rcases hu.2 with h | h
+        · exact (build_num x x' h hx).opnd
+        · exact (build_str x x' h hx).1
+      obtain ⟨hin, hna, n, hn, hp⟩ := in_facts negated
+      have hne : vals ≠ [] := by cases vals <;> simp at hu ⊢
+      have hbc : booleanCompare x' (if negated then Op.not_in_op else Op.in_op)
+          (.inlist vals (inListTy x' vals) (if negated then Op.not_in_op else Op.in_op))
+          (negateOp (if negated then Op.not_in_op else Op.in_op)) none =
+          some (constructForOp x' (.inlist vals (inListTy x' vals) (if negated then Op.not_in_op else Op.in_op))
+            (if negated then Op.not_in_op else Op.in_op) .bool
+            (negateOp (if negated then Op.not_in_op else Op.in_op)) none) := rfl
+      rw [hbc, hn] at hb
+      simp only [Option.some.injEq] at hb
+      subst hb
+      simp only [constructForOp, hna, Bool.false_eq_true, if_false]
+      exact mkBinary_in x' _ n vals _ hin hp nx hne
   | .tupleIn _ _ _, _, hu, _ => by simp [BoolU] at hu
   | .pi _, _, hu, _ => by simp [BoolU] at hu
   | .ps _, _, hu, _ => by simp [BoolU] at hu
